@@ -68,6 +68,19 @@ func buildDriver(root, out string, race bool) error {
 	if race {
 		args = append(args, "-race")
 	}
+	// VERIF_REPO (development aid for trying seeded changes in a scratch worktree): build the driver against another
+	// checkout instead of /repo. The registered commands never set it.
+	if alt := os.Getenv("VERIF_REPO"); alt != "" {
+		gm, err := os.ReadFile(filepath.Join(root, "harness", "go.mod"))
+		if err != nil {
+			return err
+		}
+		gs, _ := os.ReadFile(filepath.Join(root, "harness", "go.sum"))
+		mf := out + ".go.mod"
+		os.WriteFile(mf, []byte(strings.Replace(string(gm), "/repo/luahelper-lsp", filepath.Join(alt, "luahelper-lsp"), 1)), 0o644)
+		os.WriteFile(out+".go.sum", gs, 0o644)
+		args = append(args, "-modfile", mf)
+	}
 	args = append(args, "./cmd/lspdriver")
 	cmd := exec.Command("go", args...)
 	cmd.Dir = filepath.Join(root, "harness")
